@@ -9,11 +9,27 @@ import ShpanVerif.Spec.PipeSpec
 namespace ShpanVerif.Drive.PipeCommon
 open ShpanVerif.Util ShpanVerif.Model.Pipe
 
+/-- terminals built on `Consume` that hand back a value instead of the elements: what they report is a function of
+    what a collecting consumer is given (`FindFirstAndLast`, `FindLast`, `Count`; stream/shpan_stream.go 173-285) -/
+inductive Post where
+  | asIs | firstLast | last | count
+  deriving DecidableEq, Repr
+
 structure Run where
   consumer : Consumer
   take : Option Int
   fault : Option (Nat × FaultKind)
+  post : Post := .asIs
   deriving Repr
+
+/-- the answer of a value terminal from the outcome of the collecting consumer: a failed run hands back nothing -/
+def Post.app : Post → Outcome → Outcome
+  | .asIs, o => o
+  | _, .oof => .oof
+  | _, .err e _ => .err e []
+  | .firstLast, .ok d => .ok (match d.head?, d.getLast? with | some a, some b => [a, b] | _, _ => [])
+  | .last, .ok d => .ok (match d.getLast? with | some b => [b] | none => [])
+  | .count, .ok d => .ok [V.int d.length]
 
 def parseFn (s : String) : Option Fn :=
   match s.splitOn ":" with
@@ -125,13 +141,14 @@ def parseRun (ts : List String) : Option Run :=
   let ts := match ts with | [c, t, f, "nw"] => [c, t, f] | _ => ts
   match ts with
   | [c, t, f] => do
-    let c ← match c with
-      | "collect" => some Consumer.collect | "user" => some .user
-      | _ => if c.startsWith "cuser:" then some .user else none
+    let (c, post) ← match c with
+      | "collect" => some (Consumer.collect, Post.asIs) | "user" => some (.user, .asIs)
+      | "ffl" => some (.collect, .firstLast) | "flast" => some (.collect, .last) | "count" => some (.collect, .count)
+      | _ => if c.startsWith "cuser:" then some (.user, .asIs) else none
     let t ← if t == "all" then some none
             else match t.splitOn ":" with | ["take", n] => n.toInt?.map some | _ => none
     let f ← parseFault f
-    pure { consumer := c, take := t, fault := f }
+    pure { consumer := c, take := t, fault := f, post := post }
   | _ => none
 
 def isAsync (c : String) : Bool := c.startsWith "ASYNC "
@@ -193,11 +210,11 @@ def runOnce (p : Pipe) (r : Run) : RunResult :=
   match r.take with
   | none =>
     let (o, p, w) := consume fuelDefault r.consumer p w
-    { outcome := o, world := w, pipe := p }
+    { outcome := r.post.app o, world := w, pipe := p }
   | some n =>
     let (o, p', w) := consume fuelDefault r.consumer (.limit n 1 p) w
     let p := match p' with | .limit _ _ q => q | q => q
-    { outcome := o, world := w, pipe := p }
+    { outcome := r.post.app o, world := w, pipe := p }
 
 def fmtOutcome (o : Outcome) : String :=
   match o with
